@@ -26,6 +26,7 @@ META = {
     "assumptions": ["sources live in files; CPython 3.12 tokenizer", "bodies contain no captures or helper calls (C04/C05)"],
     "floor_evaluations": {"quick": 2000, "thorough": 50000},
     "floor_nontrivial": {"quick": 800, "thorough": 2500},
+    "no_debug_ranges": True,
     "anchors": ["func_adl/util_ast.py", "func_adl/object_stream.py"],
 }
 
@@ -81,6 +82,8 @@ class LG:
             (f"{p}.js{m}.Select(lambda {p}: {p}.pt * {m})", "nested-same"), (f"{p}.a{m} + {p}.g('lambda {p}: {p}.zz)')", "string-lambda"),
             (f"{p}.x[{m}:2]", "slice"), (f"[{p}.a{m}, {p}.b, ({p}.c, )]", "list"), (f"{p}.a{m} if {p}.b > {m} else {p}.c", "ifexp"),
             (f"{p}.g(')', '(', ',', \"{m}]\")", "string-brackets"),
+            # bodies that are a bare constant (python keeps no source position for them)
+            (f"{m}", "constant-body"), (f"'s{m}'", "constant-body"), (f"{p}.js{m}.Select(lambda j: {m})", "nested-constant-body"),
             # f-strings (tokenised into several tokens since python 3.12): literal parts with blanks, format specs, conversions
             (f"{p}.g(f'AntiKt{{{p}.a{m}}}EM  Topo{m}')", "fstring"), (f"{p}.g(f'{{{p}.a{m}:03d}}|{{{p}.b!r:>8}}| lambda {p}: (')", "fstring-spec"),
             (f"{p}.h{m}(f\"{{{p}.a{m}}}\" + f'x{{{p}.js{m}.Select(lambda j: j.pt)}}y')", "fstring-nested-lambda"), (f"{p}.js{m}.Where(lambda {p}: {p}.pt > {m}).Select(lambda q: (q.a, q.b))", "two-nested"),
@@ -101,6 +104,14 @@ class LG:
         return self.r.choice([o for o in ["Select", "Select", "SelectMany"] if o not in exclude])
 
     def stmt(self):
+        t, sup, nt, text, form = self.stmt0()
+        if "\n" not in text and text.startswith("r = ") and self.r.random() < 0.12:
+            # non-ASCII text in front of the call on the same line (python counts columns in bytes, tokenizers in characters)
+            text = f"r = ('{self.r.choice(['é', 'ü', '中', '😀']) * self.r.randint(3, 40)}', {text[4:]})[1]"
+            nt = True
+        return t, sup, nt, text, form
+
+    def stmt0(self):
         """-> (template, supported?, nontrivial?, statement text with {IND}, body form)"""
         r = self.r
         t = r.choice([
